@@ -1961,6 +1961,54 @@ where
     }
 }
 
+/// Binary records that carry association parameters for one pair of sites: the shipped files
+/// contain none with non-default site indices, so synthetic ones are round-tripped:
+/// JSON -> record -> JSON -> record -> JSON must keep k_ij, the association parameters and
+/// the site indices ([0,0] may be omitted, it is the default).
+fn serde_binary_association(m: &mut Monitor, cfg: &Config) {
+    fn round_trip<B: serde::de::DeserializeOwned + Serialize>(j0: &Value) -> Result<(Value, Value), String> {
+        let r1: B = serde_json::from_value(j0.clone()).map_err(|e| e.to_string())?;
+        let j1 = serde_json::to_value(&r1).map_err(|e| e.to_string())?;
+        let r2: B = serde_json::from_value(j1.clone()).map_err(|e| e.to_string())?;
+        let j2 = serde_json::to_value(&r2).map_err(|e| e.to_string())?;
+        Ok((j1, j2))
+    }
+    let mut rng = Rng::derive(cfg.seed, "c14-binassoc", 0);
+    let n = cfg.tier.pick(200, 2000);
+    for i in 0..n {
+        let idx = if i < 16 { [(i / 4) as usize, (i % 4) as usize] } else { [rng.below(4), rng.below(4)] };
+        let vr = i % 2 == 1;
+        let mut j0 = json!({"k_ij": rng.range(-0.1, 0.1), "site_indices": idx});
+        if vr {
+            j0["gamma_ij"] = json!(rng.range(-0.1, 0.1));
+            j0["rc_ab"] = json!(rng.range(0.2, 0.6));
+            j0["epsilon_k_ab"] = json!(rng.range(1000.0, 3000.0));
+        } else {
+            j0["kappa_ab"] = json!(rng.range(0.001, 0.1));
+            j0["epsilon_k_ab"] = json!(rng.range(1000.0, 3000.0));
+        }
+        let kind = if vr { "saftvrmie" } else { "pcsaft" };
+        let case = 700_000 + i;
+        let r = if vr { round_trip::<feos::saftvrmie::SaftVRMieBinaryRecord>(&j0) } else { round_trip::<feos::pcsaft::PcSaftBinaryRecord>(&j0) };
+        let (j1, j2) = match r {
+            Ok(x) => x,
+            Err(e) => {
+                m.check_bool("serde-binary:association record round trip", &format!("{kind}|binary association|parse"), case, false, || json!({"json": j0, "error": e}));
+                continue;
+            }
+        };
+        let idx_of = |j: &Value| j.get("site_indices").and_then(|v| serde_json::from_value::<[usize; 2]>(v.clone()).ok()).unwrap_or([0, 0]);
+        let same_num = |a: &Value, b: &Value, k: &str| match (a.get(k).and_then(|x| x.as_f64()), b.get(k).and_then(|x| x.as_f64())) {
+            (Some(x), Some(y)) => (x - y).abs() <= 4.0 * f64::EPSILON * x.abs(),
+            (None, None) => true,
+            _ => false,
+        };
+        let keys_ok = ["k_ij", "gamma_ij", "rc_ab", "kappa_ab", "epsilon_k_ab"].iter().all(|k| same_num(&j0, &j1, k) && same_num(&j1, &j2, k));
+        let ok = idx_of(&j1) == idx && idx_of(&j2) == idx && keys_ok;
+        m.check_bool("serde-binary:association record round trip", &format!("{kind}|binary association|site_indices {}", if idx == [0, 0] { "default" } else { "non-default" }), case, ok, || json!({"json": j0, "after one round trip": j1, "after two": j2}));
+    }
+}
+
 pub fn run(cfg: Config) -> i32 {
     let mut m = Monitor::new(cfg.clone());
     let dir = std::env::temp_dir().join(format!(
@@ -2107,6 +2155,8 @@ pub fn run(cfg: Config) -> i32 {
     for l in &libs[1..] {
         serde_gc(&mut m, l);
     }
+
+    serde_binary_association(&mut m, &cfg);
 
     std::panic::set_hook(hook);
     let _ = std::fs::remove_dir_all(&dir);
